@@ -61,7 +61,7 @@ func CuratedC20Cases(thorough bool) []C20Case {
 	for pi, p := range poolPaths {
 		info := poolPathInfo[pi]
 		for di, d := range poolDocs {
-			if info.wild && !poolDocSafe[di] {
+			if (info.wild && !poolDocSafe[di]) || d.NoEnum {
 				continue
 			}
 			home := groupIn(d.Group, p.Groups)
@@ -178,7 +178,7 @@ func GeneratedC20Case(seed uint64) C20Case {
 	} else {
 		for {
 			i := g.r.IntN(len(poolDocs))
-			if wild && !poolDocSafe[i] {
+			if (wild && !poolDocSafe[i]) || poolDocs[i].NoEnum {
 				continue
 			}
 			doc = poolDocs[i].JSON
